@@ -66,16 +66,21 @@ theorem inv_start (answer : Req → Resp) (d₀ : Disco) (ps : List (Proc Req Re
   refine ⟨(settle none p).1, (settle none p).2, ?_, h.1, h.2.1⟩
   simp [start, List.getElem?_map, hp]
 
-theorem inv_deliver (answer : Req → Resp) (d₀ : Disco) (ps : List (Proc Req Resp Disco Res))
+theorem inv_deliver (answer : Req → Resp) (forgets : Req → Resp → Bool) (d₀ : Disco) (ps : List (Proc Req Resp Disco Res))
     (s : State Req Resp Disco Res) (j : Nat) (h : Inv answer d₀ ps s) :
-    Inv answer d₀ ps (deliver answer d₀ s j) := by
+    Inv answer d₀ ps (deliver answer forgets d₀ s j) := by
   rcases h with ⟨hsh, hlen, hall⟩
   unfold deliver
   split
   · -- waiting
     rename_i q k hist hj
-    have hspec := settle_spec answer d₀ s.shared hsh (k (answer q))
-    refine ⟨hsh, by simpa using hlen, ?_⟩
+    have hsh' : (if forgets q (answer q) then none else s.shared) = none ∨
+        (if forgets q (answer q) then none else s.shared) = some d₀ := by
+      split
+      · exact Or.inl rfl
+      · exact hsh
+    have hspec := settle_spec answer d₀ _ hsh' (k (answer q))
+    refine ⟨hsh', by simpa using hlen, ?_⟩
     intro i p hp
     rcases hall i p hp with ⟨st, hh, hget, hden, hreq⟩
     by_cases hij : j = i
@@ -106,22 +111,23 @@ theorem inv_deliver (answer : Req → Resp) (d₀ : Disco) (ps : List (Proc Req 
     · exact ⟨st, hh, by simp [List.getElem?_set, hij, hget], hden, hreq⟩
   · exact ⟨hsh, hlen, hall⟩
 
-theorem inv_run (answer : Req → Resp) (d₀ : Disco) (ps : List (Proc Req Resp Disco Res))
+theorem inv_run (answer : Req → Resp) (forgets : Req → Resp → Bool) (d₀ : Disco) (ps : List (Proc Req Resp Disco Res))
     (s : State Req Resp Disco Res) (sched : List Nat) (h : Inv answer d₀ ps s) :
-    Inv answer d₀ ps (runSched answer d₀ s sched) := by
+    Inv answer d₀ ps (runSched answer forgets d₀ s sched) := by
   induction sched generalizing s with
   | nil => exact h
-  | cons j sched ih => exact ih _ (inv_deliver answer d₀ ps s j h)
+  | cons j sched ih => exact ih _ (inv_deliver answer forgets d₀ ps s j h)
 
 /-- Under every schedule, every operation that finishes returns exactly what it returns when
     run alone, and the requests it has put on the wire are exactly the requests of its solo run
-    (so results, users, keys and request contents are never mixed between operations). -/
-theorem C14_schedule_independent (answer : Req → Resp) (d₀ : Disco)
+    (so results, users, keys and request contents are never mixed between operations) — whichever
+    answers make the client forget its discovery data (`forgets`, e.g. error-status replies). -/
+theorem C14_schedule_independent (answer : Req → Resp) (forgets : Req → Resp → Bool) (d₀ : Disco)
     (ps : List (Proc Req Resp Disco Res)) (sched : List Nat) (i : Nat) (p : Proc Req Resp Disco Res)
     (r : Res) (h : List (Wire Req)) (hp : ps[i]? = some p)
-    (hfin : (runSched answer d₀ (start ps) sched).procs[i]? = some (.finished r, h)) :
+    (hfin : (runSched answer forgets d₀ (start ps) sched).procs[i]? = some (.finished r, h)) :
     r = denote answer d₀ p ∧ reqsOf h = soloReqs answer d₀ p := by
-  have hinv := inv_run answer d₀ ps (start ps) sched (inv_start answer d₀ ps)
+  have hinv := inv_run answer forgets d₀ ps (start ps) sched (inv_start answer d₀ ps)
   rcases hinv.2.2 i p hp with ⟨st, hh, hget, hden, hreq⟩
   rw [hfin] at hget
   cases hget
@@ -129,19 +135,19 @@ theorem C14_schedule_independent (answer : Req → Resp) (d₀ : Disco)
 
 /-- At every moment of every schedule, what an operation has requested so far is a prefix of its
     solo run: the only additional traffic under concurrency is discovery probes. -/
-theorem C14_discovery_only_repeats (answer : Req → Resp) (d₀ : Disco)
+theorem C14_discovery_only_repeats (answer : Req → Resp) (forgets : Req → Resp → Bool) (d₀ : Disco)
     (ps : List (Proc Req Resp Disco Res)) (sched : List Nat) (i : Nat) (p : Proc Req Resp Disco Res)
     (hp : ps[i]? = some p) :
-    ∃ st h, (runSched answer d₀ (start ps) sched).procs[i]? = some (st, h) ∧
+    ∃ st h, (runSched answer forgets d₀ (start ps) sched).procs[i]? = some (st, h) ∧
       reqsOf h <+: soloReqs answer d₀ p := by
-  have hinv := inv_run answer d₀ ps (start ps) sched (inv_start answer d₀ ps)
+  have hinv := inv_run answer forgets d₀ ps (start ps) sched (inv_start answer d₀ ps)
   rcases hinv.2.2 i p hp with ⟨st, hh, hget, _, hreq⟩
   exact ⟨st, hh, hget, ⟨_, hreq⟩⟩
 
 /-- Progress: a suspended operation can always be resumed, and a delivery to it never touches
     any other operation's state. -/
-theorem C14_progress (answer : Req → Resp) (d₀ : Disco) (s : State Req Resp Disco Res) (i j : Nat)
-    (hij : i ≠ j) : (deliver answer d₀ s i).procs[j]? = s.procs[j]? := by
+theorem C14_progress (answer : Req → Resp) (forgets : Req → Resp → Bool) (d₀ : Disco) (s : State Req Resp Disco Res) (i j : Nat)
+    (hij : i ≠ j) : (deliver answer forgets d₀ s i).procs[j]? = s.procs[j]? := by
   unfold deliver
   split <;> simp [List.getElem?_set, hij]
 
@@ -152,7 +158,7 @@ def getProc (mkReq : Disco → Req) (result : Resp → Res) : Proc Req Resp Disc
 /- non-vacuity: two operations on a fresh v3 client, both probe, results not mixed -/
 example :
     let ps : List (Proc Nat Nat Nat Nat) := [getProc (· + 1) (· * 2), getProc (· + 5) (· * 3)]
-    let s := runSched (fun q => q + 100) 7 (start ps) [1, 0, 0, 1]
+    let s := runSched (fun q => q + 100) (fun _ _ => false) 7 (start ps) [1, 0, 0, 1]
     s.procs.map (fun x => match x.1 with | .finished r => some r | _ => none) = [some 216, some 336] ∧
     s.log.map (fun e => (e.1, match e.2 with | .probe => 0 | .req q => q)) = [(0, 0), (1, 0), (1, 12), (0, 8)] := by
   decide
